@@ -1,4 +1,5 @@
 import GoSQLXModel.Model.LexGen
+import GoSQLXModel.Model.PosCache
 import GoSQLXModel.Proofs.LexEOF
 import GoSQLXModel.Proofs.LexSpell2
 import GoSQLXModel.Proofs.LexSpell3
@@ -152,5 +153,44 @@ example : (match tokenize .ascii genLexTables sample with
 /-- an unterminated quoted identifier that runs into a newline is located at its opening quote -/
 example : tokenize .ascii genLexTables (strBytes "a\n \"two\nlines\"") = .err ⟨"E1002", .at 3⟩ ∧
     locOf (strBytes "a\n \"two\nlines\"") 3 = (2, 2) := by decide +kernel
+
+/-! ### locations identify offsets -/
+
+/-- strict lexicographic order on (line, column) -/
+def locLt (a b : Nat × Nat) : Prop := a.1 < b.1 ∨ (a.1 = b.1 ∧ a.2 < b.2)
+
+/-- offset 0 is line 1, column 1 -/
+theorem loc_start (inp : Bytes) : locOf inp 0 = (1, 1) := by simp [locOf]
+
+/-- the line number is one plus the number of line feeds before the offset -/
+theorem line_is_linefeeds_before (inp : Bytes) (off : Nat) :
+    (locOf inp off).1 = 1 + ((inp.take off).filter (· == 10)).length := rfl
+
+theorem loc_step_strict (inp : Bytes) (i : Nat) (h : i < inp.length) : locLt (locOf inp i) (locOf inp (i + 1)) := by
+  rw [locOf_succ inp i h]
+  unfold locLt
+  split
+  · left; simp
+  · right; simp only [true_and]; split <;> omega
+
+/-- **C05 (strictly monotone)**: within the input a strictly later offset has a strictly later location -/
+theorem loc_strict (inp : Bytes) {i j : Nat} (hij : i < j) (hj : j ≤ inp.length) : locLt (locOf inp i) (locOf inp j) := by
+  have h1 := loc_step_strict inp i (by omega)
+  have h2 := loc_monotone inp (show i + 1 ≤ j by omega)
+  unfold locLt at *
+  unfold locLe at h2
+  rcases h1 with h1 | ⟨h1, h1'⟩ <;> rcases h2 with h2 | ⟨h2, h2'⟩
+  · left; omega
+  · left; omega
+  · left; omega
+  · right; exact ⟨by omega, by omega⟩
+
+/-- **C05 (a location names one place)**: two offsets of the input with the same (line, column) are the same offset -/
+theorem loc_injective (inp : Bytes) {i j : Nat} (hi : i ≤ inp.length) (hj : j ≤ inp.length)
+    (h : locOf inp i = locOf inp j) : i = j := by
+  rcases Nat.lt_trichotomy i j with hlt | heq | hgt
+  · have := loc_strict inp hlt hj; rw [h] at this; unfold locLt at this; omega
+  · exact heq
+  · have := loc_strict inp hgt hi; rw [h] at this; unfold locLt at this; omega
 
 end GoSQLXModel.Props.C05
